@@ -780,6 +780,78 @@ def r9_radial_sign(repo: Repo, rep, rule_id="R-C05-9"):
             rep.violation(R, fi.site(node), fi.fq, "bound = c * radius + b with c > 0", f"bound {bound!r} is not linear in the radius", f"bound {bound!r}")
 
 
+def r10_sides_are_segments(repo: Repo, rep, rule_id="R-C05-10"):
+    R = rep.rule(rule_id, "polygon boundaries: membership is a disjunction of sides, each side = closeness to the side's line AND a range test along it "
+                 "(no assignment makes the predicate true with every range test false)", floor=2,
+                 why="a closeness test alone accepts the whole infinite line through the side: points far outside the polygon are reported as boundary points")
+    from ..inline import expand_helpers
+    for spec in ("problem.domains.domain2D.triangle.TriangleBoundary", "problem.domains.domain2D.parallelogram.ParallelogramBoundary"):
+        ci = repo.cls(spec)
+        fi = ci.methods.get("_contains")
+        if fi is None:
+            raise AnalysisError(f"{spec}._contains vanished")
+        rep.saw(fi)
+        for p in paths(fi.node):
+            if p.ret is RAISE or p.ret is None:
+                continue
+            ret = expand_helpers(repo, ci, p.ret)
+            names = {}
+
+            def atom(n):
+                m = _strip_shape(n)
+                if m is not n:
+                    return B.from_ast(m, atom)
+                if isinstance(n, ast.Call) and (attr_chain(n.func) or "").endswith("isclose"):
+                    return B.var(names.setdefault(("c", dump(n)), f"close{len(names)}"))
+                if isinstance(n, ast.Compare) and all(isinstance(o, (ast.Lt, ast.LtE, ast.Gt, ast.GtE)) for o in n.ops):
+                    return B.var(names.setdefault(("r", dump(n)), f"range{len(names)}"))
+                if isinstance(n, ast.Compare) and len(n.ops) == 1 and isinstance(n.left, ast.Call) and attr_chain(n.left.func) in ("torch.abs", "abs"):
+                    return B.var(names.setdefault(("c", dump(n)), f"close{len(names)}"))
+                return None
+            try:
+                F = B.from_ast(ret, atom)
+            except B.NotBool as e:
+                rep.undecided(R, fi.site(p.ret_node), fi.fq, "membership predicate is a Boolean combination of closeness and range tests", str(e)[:100])
+                continue
+            ranges = [v for (k, _), v in names.items() if k == "r"]
+            closes = [v for (k, _), v in names.items() if k == "c"]
+            if not closes:
+                rep.undecided(R, fi.site(p.ret_node), fi.fq, "closeness tests found", "none")
+                continue
+            # is there an assignment with every range test false and the predicate true?
+            bad = None
+            for a in B.assignments(sorted(B.atoms(F))):
+                if all(not a[r] for r in ranges) and B.ev(F, a):
+                    bad = {k: v for k, v in a.items() if v}
+                    break
+            texts = {v: t for (k, t), v in names.items()}
+            rep.check(R, bad is None, fi.site(p.ret_node), fi.fq, "no side is accepted on closeness alone", 
+                      "true with all range tests false when " + ", ".join(texts[k][:50] for k in sorted(bad)) if bad else f"{len(closes)} closeness / {len(ranges)} range tests",
+                      "line instead of segment: " + ", ".join(texts[k][:40] for k in sorted(bad)) if bad else "")
+
+
+def r11_all_rows_answered(repo: Repo, rep, rule_id="R-C05-11"):
+    R = rep.rule(rule_id, "a membership test that works through its rows in chunks enumerates ceil(N / size) chunks: no floor division for the chunk count", floor=10,
+                 why="range(len(points) // size) skips the trailing N mod size rows: the answer has fewer rows than the query")
+    dom = repo.cls("problem.domains.domain.Domain")
+    for ci in repo.subclasses(dom, strict=True):
+        fi = ci.methods.get("_contains")
+        if fi is None:
+            continue
+        rep.saw(fi)
+        bad = []
+        for n in ast.walk(fi.node):
+            it = n.iter if isinstance(n, (ast.For, ast.comprehension)) else None
+            if not (isinstance(it, ast.Call) and attr_chain(it.func) == "range" and len(it.args) == 1):
+                continue
+            a = it.args[0]
+            floor_div = isinstance(a, ast.BinOp) and isinstance(a.op, ast.FloorDiv) and "len(" in dump(a.left)
+            trunc = isinstance(a, ast.Call) and attr_chain(a.func) == "int" and a.args and isinstance(a.args[0], ast.BinOp) and isinstance(a.args[0].op, ast.Div) and "len(" in dump(a.args[0].left)
+            if floor_div or trunc:
+                bad.append(dump(it)[:60])
+        rep.check(R, not bad, fi.site(), fi.fq, "chunk loops cover every row", str(bad[:2]), f"chunk count by floor division: {bad[:2]}")
+
+
 def _roles_of(expr: ast.AST, roles: Dict[str, Set[str]]) -> Set[str]:
     out = set()
     for n in ast.walk(expr):
@@ -978,10 +1050,14 @@ def run(repo: Repo, rep):
     r7_own_columns(repo, rep)
     r8_side_tolerance(repo, rep)
     r9_radial_sign(repo, rep)
+    r10_sides_are_segments(repo, rep)
+    r11_all_rows_answered(repo, rep)
     from .c12 import r3_selection  # the name-based selection this property's idioms rely on
     r3_selection(repo, rep)
     from .c13 import r2_r3_mapping  # shape functions are evaluated with each row's own values: given names win over stored defaults
     r2_r3_mapping(repo, rep)
+    from .c02 import r9_motion_params  # a moved domain contains its own samples only if row i is moved with parameter row i
+    r9_motion_params(repo, rep)
     from .c13 import r5_copy_on_partial  # shape functions fixed by a partial evaluation live in a deep copy: the original and earlier evaluations keep their own values
     r5_copy_on_partial(repo, rep)
     from .c17 import r1_roundtrip, r5_point_data  # a partially evaluated expression denotes the same set: every constructor argument (pivot, flags, sub-domains) must be carried over; a fixed factor becomes the Point with its coordinates in space order
